@@ -86,7 +86,9 @@ DateLits == { Day(2017, 5, 1), Day(2017, 5, 2), Day(2017, 4, 30),
 DateAtoms == { A1("modified", op, l, "date/" \o op) : op \in OrdOps, l \in DateLits }
 
 ColPairs == { <<"size", "hardlinks">>, <<"uid", "gid">>, <<"size", "line_count">>, <<"length(name)", "hardlinks">>,
-              <<"line_count", "hardlinks">>, <<"gid", "size">>, <<"size", "size">> }
+              <<"line_count", "hardlinks">>, <<"gid", "size">>, <<"size", "size">>,
+              \* the right-hand side derives from a column (its value differs from entry to entry)
+              <<"size", "length(name)">>, <<"size", "hardlinks + 1">>, <<"uid", "length(name) * 2">>, <<"line_count", "length(name)">> }
 ColAtoms == { A1(p[1], op, ColL(p[2]), "colcol/" \o op) : p \in ColPairs, op \in OrdOps }
        \cup { A1("name", op, ColL("ext"), "colcol/text/" \o op) : op \in {"eeq", "ene"} }
        \cup { A1("is_dir", op, ColL("user_exec"), "colcol/bool/" \o op) : op \in {"eq", "ne"} }
